@@ -182,9 +182,30 @@ def generate(rng: random.Random, tier: str) -> dict:
     sch = [_draw_chunk(rng, sny), _draw_chunk(rng, snx)]
     dch = [rng.choice([1, 2, 3, 5, 7, 16, 64]), rng.choice([1, 2, 3, 5, 7, 16, 64])]
     tch = rng.choice([1, max(tdim, 1)])
+    src_irregular = None
+    if rng.random() < 0.12 and sny >= 4 and snx >= 4:
+        # explicit irregular chunk tuples, e.g. (5, 7, 3)
+        def split(n):
+            cuts = sorted(rng.sample(range(1, n), min(n - 1, rng.choice([1, 2, 3]))))
+            return [b - a for a, b in zip([0] + cuts, cuts + [n])]
+
+        src_irregular = [split(sny), split(snx)]
+    dst_default = rng.random() < 0.08  # chunks= not given: destination chunks default to the source chunk size
     # bound the number of tasks (every destination chunk is one GDAL warp, ~3 ms of fixed cost)
     cap = 40 if tier == "quick" else 64
     dshape = resolve_dst(src, dst)["shape"]
+    if dst_default:
+        if src_irregular is not None:
+            src_irregular = None
+        while -(-dshape[0] // sch[0]) * -(-dshape[1] // sch[1]) > cap:
+            grow = [ax for ax in (0, 1) if sch[ax] < [sny, snx][ax]]
+            if not grow:
+                dst_default = False
+                break
+            ax = max(grow, key=lambda a: dshape[a] / sch[a])
+            sch[ax] = min(sch[ax] * 2 if sch[ax] > 1 else 2, [sny, snx][ax])
+        if dst_default:
+            dch = [min(sch[0], sny), min(sch[1], snx)]
     while -(-dshape[0] // dch[0]) * -(-dshape[1] // dch[1]) * max(1, tdim // tch) > cap:
         ax = 0 if dshape[0] / dch[0] >= dshape[1] / dch[1] else 1
         dch[ax] = dch[ax] * 2 if dch[ax] > 1 else rng.choice([2, 3])
@@ -201,6 +222,8 @@ def generate(rng: random.Random, tier: str) -> dict:
         "src_chunks": sch,
         "dst_chunks": dch,
         "time_chunk": tch,
+        "src_irregular": src_irregular,
+        "dst_default": dst_default,
         "dask": [
             {
                 "workers": rng.choice([1, 1, 1, 2, 3, 4]),
@@ -355,6 +378,8 @@ def execute(record: dict, rng: Optional[random.Random]) -> Outcome:
         "int8_or_bool_detour": 0,
         "geobox_sanity_mismatch": 0,
         "interior_fill_differs_non_nearest": 0,
+        "irregular_source_chunks": 0,
+        "default_destination_chunks": 0,
     }
     dtype = cfg["dtype"]
     src_nd = float("nan") if cfg["src_nodata"] == "nan" else cfg["src_nodata"]
@@ -376,7 +401,11 @@ def execute(record: dict, rng: Optional[random.Random]) -> Outcome:
         s_gbox = GeoBox(tuple(src["shape"]), _affine(src["aff"]), f"EPSG:{src['crs']}")
         d_gbox = GeoBox(tuple(dst["shape"]), _affine(dst["aff"]), f"EPSG:{dst['crs']}")
         time = [f"200{i}-01-01" for i in range(tdim)] if tdim else None
-        sch = tuple(cfg["src_chunks"]) if not tdim else (cfg["time_chunk"], *cfg["src_chunks"])
+        sch: Any = tuple(cfg["src_chunks"]) if not tdim else (cfg["time_chunk"], *cfg["src_chunks"])
+        if cfg.get("src_irregular"):
+            irr = tuple(tuple(c) for c in cfg["src_irregular"])
+            sch = irr if not tdim else ((cfg["time_chunk"],) * (tdim // cfg["time_chunk"]) + ((tdim % cfg["time_chunk"],) if tdim % cfg["time_chunk"] else ()), *irr)
+            probes["irregular_source_chunks"] = 1
         xn = wrap_xr(data, s_gbox, nodata=src_nd, time=time)
         kw: Dict[str, Any] = {"resampling": cfg["resampling"]}
         if dst_nd is not None:
@@ -384,7 +413,11 @@ def execute(record: dict, rng: Optional[random.Random]) -> Outcome:
         ref = xr_reproject(xn, d_gbox, **kw).values
         for rep, dcfg in enumerate(cfg["dask"]):
             xd = wrap_xr(da.from_array(data.copy(), chunks=sch, name=f"src{rep}-{cfg['uuid_seed']:032x}"), s_gbox, nodata=src_nd, time=time)
-            rd = xr_reproject(xd, d_gbox, chunks=tuple(cfg["dst_chunks"]), **kw)
+            if cfg.get("dst_default"):
+                rd = xr_reproject(xd, d_gbox, **kw)
+                probes["default_destination_chunks"] = 1
+            else:
+                rd = xr_reproject(xd, d_gbox, chunks=tuple(cfg["dst_chunks"]), **kw)
             ch.policy = dcfg.get("policy") or {"kind": "uniform"}
             kernel = Kernel(seam_funcs=_seams()) if dcfg["workers"] > 1 else None
             sim = DaskSim(
@@ -604,6 +637,11 @@ def candidates(record: dict) -> Iterable[dict]:
         c = copy.deepcopy(record)
         c["config"]["tdim"] = 0
         yield c
+    for k in ("src_irregular", "dst_default"):
+        if cfg.get(k):
+            c = copy.deepcopy(record)
+            c["config"][k] = None if k == "src_irregular" else False
+            yield c
     for k, simple in (("resampling", "nearest"), ("dst_nodata", None), ("src_nodata", None), ("dtype", "uint8"), ("dtype", "float32"), ("time_chunk", 1)):
         if cfg.get(k) != simple:
             c = copy.deepcopy(record)
